@@ -87,6 +87,7 @@ Definition obs_step (s : state) (o : op) : obs :=
     end
   | OMark i =>
     match nth_error s i with Some l => BMark (lobs_of (mark_for_recovery l)) | None => BNone end
+  | OSetTimeout _ _ => BNone
   | OEnd => BEnd (map dump_of s)
   end.
 
@@ -293,6 +294,7 @@ Definition FG := FLong.
 Definition CA := Build_case.
 Arguments OPkt _%nat _%Z _%Z.
 Arguments OMark _%nat.
+Arguments OSetTimeout _%nat _%Z.
 
 Fixpoint first_diff (a b : list obs) (i : N) : N :=
   match a, b with
